@@ -427,7 +427,7 @@ class C05(TextPlan):
     tie_name = 'CompileWarrior on valid, mutated and hostile inputs (ASCII subset): gmars vs the extracted assembler model'
     rule = ('valid programs rendered by the extracted renderer, 1-4 byte-level mutations of them (deletions, insertions of lexer-alphabet bytes, random bytes, truncation, duplicated spans, '
             'FOR/ROF/EQU/;assert fragments, invalid UTF-8, NUL, ^Z, CR/LF, unterminated last line), token soup, EQU cycles with and without ;assert, empty EQUs, failing FOR counts; '
-            'each case in a worker with a deadline; checked on gmars: returns (no hang), no panic, error xor result, goroutine count back to its previous value; '
+            'a lone = | & at the start or end of every line of small FOR / EQU programs; each case in a worker with a deadline; checked on gmars: returns (no hang), no panic, error xor result, goroutine count back to its previous value; '
             'non-trivial = the input is not a valid program (the assembler returns an error)')
     base_gens = [('prog', 500, progargs(2, 3, EQUS | FORS | ASSERTS | SIGNS | DIVS, 5)), ('prog', 300, progargs(0, 2, EQUS | FORS, 4))]
 
@@ -468,6 +468,18 @@ class C05(TextPlan):
                                b'i for ' + use + b'\ndat i\nrof\n', b'dat 1\nend ' + use + b'\n'])
             t = defs + body if rng.random() < 0.7 else body + defs
             lines.append([10] + dflt + list(t))
+        # a lone '=', '|' or '&' (the lexer's error token, after which nothing more is read) at the end or at the
+        # start of every line of small programs: in FOR headers, bodies, ROF lines, EQU lines, after the block
+        templates = [b'i for 2\ndat i, i\nrof\ndat 9\n', b'x equ 2\nlab i for x\nj for 2\nmov i, j\nrof\nrof\njmp lab\n',
+                     b'for 3\ndat 0, 0\nrof', b'a equ 1\n;assert a\nmov a, a\nend 0\n', b'for 0\ndat 1\nrof\nfor 1\ndat 2\nrof\n']
+        for tpl in templates:
+            ls = tpl.split(b'\n')
+            for k in range(len(ls)):
+                for bad in (b'|', b'=', b'&'):
+                    for where in (0, 1):
+                        c = list(ls)
+                        c[k] = (bad + b' ' + c[k]) if where == 0 else (c[k] + b' ' + bad)
+                        lines.append([10] + dflt + list(b'\n'.join(c)))
         # token soup
         alpha = [b'mov', b'dat', b'for', b'rof', b'equ', b'end', b'org', b'x', b'y', b'1', b'0', b'+', b'-', b'*', b'/', b'%', b'(', b')', b',', b':', b';c', b'\n', b' ', b'$', b'#', b'@', b'<', b'>', b'{', b'}', b'==', b'<=', b'.ab', b'_', b'\t', b'\r\n']
         nsoup = 300 if tier != 'thorough' else 6000
